@@ -680,7 +680,7 @@ func ruleScaleWire(c *Ctx) {
 		good = ok && n == "Name"
 		if !good {
 			ac := &affCtx{c: c, fn: fn, alias: map[ssa.Value]string{}}
-			good = strings.HasSuffix(ac.describe(raw.Common().Args[0]), "key.Name")
+			good = strings.HasSuffix(ac.describe(raw.Common().Args[0]), "p0.Name")
 		}
 	}
 	c.check(good, name+"|letters", c.pos(fn.Pos()), name, "letters start at the key's own letter", "the scale's letters are not generated from the key's tonic letter")
@@ -790,7 +790,7 @@ func ruleCircleWire(c *Ctx) {
 			}
 			if ci.Common().Args[1] != ssa.Value(fn.Params[1]) {
 				ac := &affCtx{c: c, fn: fn, alias: map[ssa.Value]string{}}
-				if ac.describe(ci.Common().Args[1]) != "key" {
+				if ac.describe(ci.Common().Args[1]) != "p1" {
 					problem = "the ring is not searched for the given key"
 				}
 			}
